@@ -338,10 +338,42 @@ theorem cdata_end_in_sections_accepted :
        [60, 33, 91, 67, 68, 65, 84, 65, 91, 62, 98, 93, 93, 62] ++ [60, 47, 75, 101, 121, 62]))))
       = some [97, 93, 93, 62, 98] := by decide
 
+/-- F-xml-5i (`xml-illformed-accepted:pi-target`, FIXED by 66c0f09): a processing instruction without a target,
+`<Key><??>k</Key>` (the witness `w-illformed-pi-target`, inside `<Tag>` there), is refused with `InvalidContent`
+(before: accepted as `k`, the processing instruction was skipped unseen) … -/
+theorem pi_no_target_refused :
+    errOf (decodeDoc X0 (.named key) .str (deEvents (tokenize
+      ([60, 75, 101, 121, 62] ++ [60, 63, 63, 62] ++ [107, 60, 47, 75, 101, 121, 62])))) = some .invalidContent := by decide
+
+/-- … so is the reserved target in another case, `<Key><?XML?>k</Key>` (`w-illformed-pi-reserved`) … -/
+theorem pi_reserved_target_refused :
+    errOf (decodeDoc X0 (.named key) .str (deEvents (tokenize
+      ([60, 75, 101, 121, 62] ++ [60, 63, 88, 77, 76, 63, 62] ++ [107, 60, 47, 75, 101, 121, 62])))) = some .invalidContent := by
+  decide
+
+/-- … and a target that is no name, `<Key><?1a b?>k</Key>` (`w-illformed-pi-nonname`) … -/
+theorem pi_nonname_target_refused :
+    errOf (decodeDoc X0 (.named key) .str (deEvents (tokenize
+      ([60, 75, 101, 121, 62] ++ [60, 63, 49, 97, 32, 98, 63, 62] ++ [107, 60, 47, 75, 101, 121, 62])))) = some .invalidContent := by
+  decide
+
+/-- … the specification: none of the three is well-formed … -/
+theorem pi_targets_illformed :
+    ([[60, 63, 63, 62], [60, 63, 88, 77, 76, 63, 62], [60, 63, 49, 97, 32, 98, 63, 62]].all fun pi =>
+      match XmlSpec.parse ([60, 75, 101, 121, 62] ++ pi ++ [107, 60, 47, 75, 101, 121, 62]) with
+      | .error (.illFormed _) => true | _ => false) = true := by decide
+
+/-- … a well-formed processing instruction is skipped as before, also inside character data:
+`<Key>a<?xml-stylesheet href="x"?>b</Key>` is `ab` -/
+theorem pi_wellformed_accepted :
+    strOf (decodeDoc X0 (.named key) .str (deEvents (tokenize
+      ([60, 75, 101, 121, 62, 97] ++ [60, 63, 120, 109, 108, 45, 115, 116, 121, 108, 101, 115, 104, 101, 101, 116, 32, 104, 114,
+        101, 102, 61, 34, 120, 34, 63, 62] ++ [98, 60, 47, 75, 101, 121, 62])))) = some [97, 98] := by decide
+
 /-- `<Key a=b>k</Key>` -/
 def docAttr : Bytes := [60, 75, 101, 121, 32, 97, 61, 98, 62, 107, 60, 47, 75, 101, 121, 62]
 
-/-- F-xml-5b (`xml-illformed-accepted:attribute-syntax`, open — like the clauses 5c … 5f, 5i, 5j): an unquoted attribute value
+/-- F-xml-5b (`xml-illformed-accepted:attribute-syntax`, open — like the clauses 5c … 5f, 5j, 5k): an unquoted attribute value
 is accepted … -/
 theorem illformed_accepted :
     strOf (decodeDoc X0 (.named key) .str (deEvents (tokenize docAttr))) = some [107] := by decide
